@@ -38,7 +38,16 @@ F5 == {Case(<<<<"x">>>>, {}, "none", -1, hc, k, at) :
 (* in between; the second request's reader must still get both messages right                     *)
 F6 == UNION {{Case(<<a, <<"x">>>>, {c}, "none", -1, {}, "none", -1) : c \in 1..(Len1(a) - 1)}
              : a \in {<<"x">>, <<"]", "]", ">">>}}
-Cases == CASE Family = "F6" -> F6 [] Family = "F1" -> F1 [] Family = "F2" -> F2 [] Family = "F3" -> F3
+(* the peer goes away while the transport itself is still being set up, before a single byte of the hello:     *)
+(* after the TCP accept, in the middle of the TLS handshake / SSH version exchange, during SSH authentication,  *)
+(* channel open and the subsystem request (connection cut, channel closed, request refused), a cli that exits    *)
+(* without speaking NETCONF                                                                                       *)
+Stages == {"tls-accept", "tls-greeting", "tls-greeting-reset", "tls-garbage", "tls-silent-then-close",
+           "ssh-accept", "ssh-banner", "ssh-garbage", "ssh-auth", "ssh-channel", "ssh-channel-refuse",
+           "ssh-subsystem-drop", "ssh-subsystem-close", "ssh-subsystem-refuse", "ssh-subsystem-ok-close",
+           "local-exit", "local-stderr", "local-garbage"}
+F7 == {Case(<<<<"x">>>>, {}, "none", -1, {}, st, 0) : st \in Stages}
+Cases == CASE Family = "F7" -> F7 [] Family = "F6" -> F6 [] Family = "F1" -> F1 [] Family = "F2" -> F2 [] Family = "F3" -> F3
            [] Family = "F4" -> F4 [] Family = "F5" -> F5
 ASSUME PrintT(<<"GEN", ToJson([cases |-> Cases])>>)
 VARIABLE dummy
